@@ -327,8 +327,10 @@ def self_test(ctx: Ctx, lines, base):
         c["t"] = l["t"] = f"selftest{k}"
         l["i"] = 0
         out += [c, l]
+    ndrift = len(ctx.model_drift)
     rejected = {r["t"] for r in ctx.judge(AREA, "RoutingXTrace", out, batch=4000)}
     ctx.traces -= len(out)
+    del ctx.model_drift[ndrift:]          # drift records of deliberately corrupted lines are not evidence
     missed = [what for k, (_, _, what) in enumerate(muts) if f"selftest{k}" not in rejected]
     ctx.notes["corrupted_lines_rejected"] = f"{len(muts) - len(missed)}/{len(muts)}"
     if missed or len(muts) < 6:
